@@ -228,7 +228,8 @@ ASSUME JsonSerialize(IOEnv.VERDICT_OUT, [fixed |-> SetToSeq(UnsafePairs({maxn_ru
     import sched
     nrep = 0
     replay_ok = True
-    for (n1d, p) in acc_conc[: (3 if chk.quick else 25)]:
+    # interpreted replays cost ~ n1d^3 per schedule: the narrowest accepted stripes on small grids are the informative ones
+    for (n1d, p) in [x for x in acc_conc if x[0] <= 36][: (3 if chk.quick else 12)]:
         if not replay_ok:
             break
         for o in (0, 2):
